@@ -65,6 +65,14 @@ func applyEdit(s *ref.LStream, xs ref.XZStream, edit string, bi int) (ok bool) {
 			return false
 		}
 		s.Backward--
+	case "backwardHigh28":
+		s.Backward ^= 1 << 28
+	case "backwardHigh30":
+		s.Backward ^= 1 << 30
+	case "backwardHigh31":
+		s.Backward ^= 1 << 31
+	case "countHigh":
+		s.Count += 1 << 32
 	case "fflag0":
 		s.FtrFlag0 = 1
 	case "fcheck":
@@ -187,6 +195,23 @@ func applyEdit(s *ref.LStream, xs ref.XZStream, edit string, bi int) (ok bool) {
 		case "recUsizePlus":
 			s.Recs[i].USize++
 			s.FixIndex()
+		case "recUnpaddedHigh":
+			s.Recs[i].Unpadded += 1 << 32
+			s.FixIndex()
+		case "recUsizeHigh":
+			s.Recs[i].USize += 1 << 32
+			s.FixIndex()
+		case "csizeFHigh", "usizeFHigh":
+			f, has := &b.CSizeField, b.HasC
+			if edit[0] == 'u' {
+				f, has = &b.USizeField, b.HasU
+			}
+			if !has {
+				return false
+			}
+			*f += 1 << 32
+			b.FixHdrPad()
+			reindex(i)
 		case "recSwap":
 			j := (i + 1) % len(s.Recs)
 			if len(s.Recs) < 2 || s.Recs[i] == s.Recs[j] {
@@ -278,25 +303,32 @@ func C04(c *hx.Ctx) {
 			c.Inconclusive("trusted base: edit %s on %s block %d classified %s but ref says err=%v", j.edit, b.Name, j.block, cl, rx.Err)
 			return
 		}
-		c.Count(1, 1)
-		out, err, p := readXZ(file, 4096, false, 777)
-		sig := map[string]string{"kind": "", "edit": j.edit, "class": cl, "check": fmt.Sprint(b.Check)}
-		replay := map[string]any{"base": b.Name, "edit": j.edit, "block": j.block, "class": cl, "file": hexHead(file, 4096)}
-		switch {
-		case p != nil:
-			sig["kind"] = "panic"
-			c.Violation(sig, fmt.Sprintf("edit %s on %s: panic %v", j.edit, b.Name, p), replay)
-		case cl == "MustReject" && err == nil:
-			sig["kind"] = "inconsistency-accepted"
-			c.Violation(sig, fmt.Sprintf("edit %s (block %d) on %s makes the metadata inconsistent but the reader reports a clean end (%d bytes)", j.edit, j.block, b.Name, len(out)), replay)
-		case err == nil && !bytes.Equal(out, b.Plain):
-			sig["kind"] = "different-content-accepted"
-			c.Violation(sig, fmt.Sprintf("edit %s on %s: clean end with different content", j.edit, b.Name), replay)
+		// every edit is read twice: with a buffer that never ends on a block boundary and byte by
+		// byte (every Read ends exactly where a block ends before the reader has seen its end marker)
+		for _, bufSize := range []int{777, 1} {
+			c.Count(1, 1)
+			out, err, p := readXZ(file, 4096, false, bufSize)
+			sig := map[string]string{"kind": "", "edit": j.edit, "class": cl, "check": fmt.Sprint(b.Check), "buf": fmt.Sprint(bufSize)}
+			replay := map[string]any{"base": b.Name, "edit": j.edit, "block": j.block, "class": cl, "readBuffer": bufSize, "file": hexHead(file, 4096)}
+			switch {
+			case p != nil:
+				sig["kind"] = "panic"
+				c.Violation(sig, fmt.Sprintf("edit %s on %s: panic %v", j.edit, b.Name, p), replay)
+			case cl == "MustReject" && err == nil:
+				sig["kind"] = "inconsistency-accepted"
+				c.Violation(sig, fmt.Sprintf("edit %s (block %d) on %s makes the metadata inconsistent but the reader reports a clean end (%d bytes)", j.edit, j.block, b.Name, len(out)), replay)
+			case err == nil && !bytes.Equal(out, b.Plain):
+				sig["kind"] = "different-content-accepted"
+				c.Violation(sig, fmt.Sprintf("edit %s on %s: clean end with different content", j.edit, b.Name), replay)
+			}
+			if bufSize == 1 {
+				continue
+			}
+			if applied%400 == 0 {
+				c.Sample(map[string]any{"base": b.Name, "edit": j.edit, "block": j.block, "class": cl, "reader_err": fmt.Sprint(err)})
+			}
+			applied++
 		}
-		if applied%400 == 0 {
-			c.Sample(map[string]any{"base": b.Name, "edit": j.edit, "block": j.block, "class": cl, "reader_err": fmt.Sprint(err)})
-		}
-		applied++
 	})
 	c.Logf("structural edits done: %d evaluations", c.Evals)
 	c.Traces += c.Evals // TLC-classified edits replayed on the real reader
